@@ -169,7 +169,12 @@ func (d *structDecoder) tryOptimize() {
 	}
 }
 
-// decode from '\uXXXX'
+func isHexDigit(c byte) bool {
+	return ('0' <= c && c <= '9') || ('a' <= c && c <= 'f') || ('A' <= c && c <= 'F')
+}
+
+// decode from '\uXXXX'. cursor is on the first hex digit; the returned cursor is on the last
+// byte of the escape (or of the surrogate pair).
 func decodeKeyCharByUnicodeRune(buf []byte, cursor int64) ([]byte, int64, error) {
 	const defaultOffset = 4
 	const surrogateOffset = 6
@@ -177,25 +182,31 @@ func decodeKeyCharByUnicodeRune(buf []byte, cursor int64) ([]byte, int64, error)
 	if cursor+defaultOffset >= int64(len(buf)) {
 		return nil, 0, errors.ErrUnexpectedEndOfJSON("escaped string", cursor)
 	}
+	for i := int64(0); i < defaultOffset; i++ {
+		if c := buf[cursor+i]; !isHexDigit(c) {
+			return nil, 0, errors.ErrSyntax(fmt.Sprintf("json: invalid character %c in \\u hexadecimal character escape", c), cursor+i)
+		}
+	}
 
 	r := unicodeToRune(buf[cursor : cursor+defaultOffset])
 	if utf16.IsSurrogate(r) {
-		cursor += defaultOffset
-		if cursor+surrogateOffset >= int64(len(buf)) || buf[cursor] != '\\' || buf[cursor+1] != 'u' {
-			return []byte(string(unicode.ReplacementChar)), cursor + defaultOffset - 1, nil
+		next := cursor + defaultOffset
+		if next+surrogateOffset < int64(len(buf)) && buf[next] == '\\' && buf[next+1] == 'u' &&
+			isHexDigit(buf[next+2]) && isHexDigit(buf[next+3]) && isHexDigit(buf[next+4]) && isHexDigit(buf[next+5]) {
+			r2 := unicodeToRune(buf[next+2 : next+surrogateOffset])
+			if r := utf16.DecodeRune(r, r2); r != unicode.ReplacementChar {
+				return []byte(string(r)), next + surrogateOffset - 1, nil
+			}
 		}
-		cursor += 2
-		r2 := unicodeToRune(buf[cursor : cursor+defaultOffset])
-		if r := utf16.DecodeRune(r, r2); r != unicode.ReplacementChar {
-			return []byte(string(r)), cursor + defaultOffset - 1, nil
-		}
+		// a half without its partner: U+FFFD, and whatever follows is decoded on its own
+		return []byte(string(unicode.ReplacementChar)), cursor + defaultOffset - 1, nil
 	}
 	return []byte(string(r)), cursor + defaultOffset - 1, nil
 }
 
+// cursor is on the byte after the backslash; the returned cursor is on the last byte of the escape.
 func decodeKeyCharByEscapedChar(buf []byte, cursor int64) ([]byte, int64, error) {
 	c := buf[cursor]
-	cursor++
 	switch c {
 	case '"':
 		return []byte{'"'}, cursor, nil
@@ -214,7 +225,7 @@ func decodeKeyCharByEscapedChar(buf []byte, cursor int64) ([]byte, int64, error)
 	case 't':
 		return []byte{'\t'}, cursor, nil
 	case 'u':
-		return decodeKeyCharByUnicodeRune(buf, cursor)
+		return decodeKeyCharByUnicodeRune(buf, cursor+1)
 	}
 	return nil, cursor, errors.ErrInvalidCharacter(c, "escaped char", cursor)
 }
@@ -555,7 +566,8 @@ func decodeKeyByBitmapUint16Stream(d *structDecoder, s *Stream) (*structFieldSet
 	}
 }
 
-// decode from '\uXXXX'
+// decode from '\uXXXX'. s.cursor is on the first hex digit; on return it is on the last byte of
+// the escape (or of the surrogate pair).
 func decodeKeyCharByUnicodeRuneStream(s *Stream) ([]byte, error) {
 	const defaultOffset = 4
 	const surrogateOffset = 6
@@ -566,29 +578,37 @@ func decodeKeyCharByUnicodeRuneStream(s *Stream) ([]byte, error) {
 			return nil, errors.ErrInvalidCharacter(s.char(), "escaped unicode char", s.totalOffset())
 		}
 	}
+	for i := int64(0); i < defaultOffset; i++ {
+		if c := s.buf[s.cursor+i]; !isHexDigit(c) {
+			s.cursor += i
+			return nil, errors.ErrSyntax(fmt.Sprintf("json: invalid character %c in \\u hexadecimal character escape", c), s.totalOffset())
+		}
+	}
 
 	r := unicodeToRune(s.buf[s.cursor : s.cursor+defaultOffset])
 	if utf16.IsSurrogate(r) {
-		s.cursor += defaultOffset
-		for s.cursor+surrogateOffset >= s.length && s.read() {
+		next := s.cursor + defaultOffset
+		for next+surrogateOffset >= s.length && s.read() {
 		}
-		if s.cursor+surrogateOffset >= s.length || s.buf[s.cursor] != '\\' || s.buf[s.cursor+1] != 'u' {
-			s.cursor += defaultOffset - 1
-			return []byte(string(unicode.ReplacementChar)), nil
+		if next+surrogateOffset < s.length && s.buf[next] == '\\' && s.buf[next+1] == 'u' &&
+			isHexDigit(s.buf[next+2]) && isHexDigit(s.buf[next+3]) && isHexDigit(s.buf[next+4]) && isHexDigit(s.buf[next+5]) {
+			r2 := unicodeToRune(s.buf[next+2 : next+surrogateOffset])
+			if r := utf16.DecodeRune(r, r2); r != unicode.ReplacementChar {
+				s.cursor = next + surrogateOffset - 1
+				return []byte(string(r)), nil
+			}
 		}
-		r2 := unicodeToRune(s.buf[s.cursor+defaultOffset+2 : s.cursor+surrogateOffset])
-		if r := utf16.DecodeRune(r, r2); r != unicode.ReplacementChar {
-			s.cursor += defaultOffset - 1
-			return []byte(string(r)), nil
-		}
+		// a half without its partner: U+FFFD, and whatever follows is decoded on its own
+		s.cursor += defaultOffset - 1
+		return []byte(string(unicode.ReplacementChar)), nil
 	}
 	s.cursor += defaultOffset - 1
 	return []byte(string(r)), nil
 }
 
+// s.cursor is on the byte after the backslash; on return it is on the last byte of the escape.
 func decodeKeyCharByEscapeCharStream(s *Stream) ([]byte, error) {
 	c := s.buf[s.cursor]
-	s.cursor++
 RETRY:
 	switch c {
 	case '"':
@@ -608,14 +628,14 @@ RETRY:
 	case 't':
 		return []byte{'\t'}, nil
 	case 'u':
+		s.cursor++
 		return decodeKeyCharByUnicodeRuneStream(s)
 	case nul:
-		s.cursor-- // back onto the sentinel: the refill continues from there
+		// on the sentinel: the refill continues from there
 		if !s.read() {
 			return nil, errors.ErrInvalidCharacter(s.char(), "escaped char", s.totalOffset())
 		}
 		c = s.buf[s.cursor]
-		s.cursor++
 		goto RETRY
 	default:
 		return nil, errors.ErrUnexpectedEndOfJSON("struct field", s.totalOffset())
